@@ -36,6 +36,13 @@ def handle : List String → String
       | .stalled => "stalled"
       | .err e => "exc " ++ e.name
     | _, _ => "bad-arg"
+  | ["pasv", nums] =>
+    match (nums.splitOn ",").mapM String.toNat? with
+    | some ns =>
+      match parseAddress ns with
+      | .ok (host, port) => "ok " ++ ".".intercalate (host.map toString) ++ " " ++ toString port
+      | .error e => "exc " ++ e.name
+    | none => "bad-arg"
   | ["fetches", exits] =>
     -- exits: one letter per fetch, N = left normally (all replies read), R = left by an exception;
     -- answer: one letter per fetch, T = opens a fresh control connection, F = reuses the pooled one
